@@ -100,27 +100,38 @@ func sourcesOf(v ssa.Value) []vsource {
 			case *ssa.FieldAddr:
 				tn, f, _ := fieldAddrName(a)
 				if al, ok := a.X.(*ssa.Alloc); ok {
-					// field of a local struct cell: stores to that field, or whole-struct stores
+					// field of a local struct cell: stores to that field, or whole-struct stores (followed through
+					// copies of the struct from one cell to another, as a by-value parameter of an expanded helper is)
 					n := 0
-					for _, ref := range *al.Referrers() {
-						switch r := ref.(type) {
-						case *ssa.FieldAddr:
-							if r.Field == a.Field {
-								for _, r2 := range *r.Referrers() {
-									if st, ok := r2.(*ssa.Store); ok && st.Addr == r {
-										n++
-										rec(st.Val, depth+1)
+					var cell func(al *ssa.Alloc, d int)
+					cell = func(al *ssa.Alloc, d int) {
+						for _, ref := range *al.Referrers() {
+							switch r := ref.(type) {
+							case *ssa.FieldAddr:
+								if r.Field == a.Field {
+									for _, r2 := range *r.Referrers() {
+										if st, ok := r2.(*ssa.Store); ok && st.Addr == r {
+											n++
+											rec(st.Val, depth+1)
+										}
 									}
 								}
-							}
-						case *ssa.Store:
-							if r.Addr == al {
-								n++
-								// whole struct stored: the field of that value
-								add("field", tn+"."+f+" of "+shortVal(r.Val), r.Val)
+							case *ssa.Store:
+								if r.Addr == al {
+									n++
+									if u, ok := r.Val.(*ssa.UnOp); ok && u.Op == token.MUL && d < 4 {
+										if src, ok := u.X.(*ssa.Alloc); ok && src != al {
+											cell(src, d+1)
+											continue
+										}
+									}
+									// whole struct stored: the field of that value
+									add("field", tn+"."+f+" of "+shortVal(r.Val), r.Val)
+								}
 							}
 						}
 					}
+					cell(al, 0)
 					if n == 0 {
 						add("const", "zero-value", v)
 					}
